@@ -173,7 +173,7 @@ class BehavioralRTLIRToVVisitorL1( bir.BehavioralRTLIRNodeVisitor ):
   def check_res( s, node, name ):
     if s.is_verilog_reserved( name ):
       raise VerilogTranslationError( s.blk, node,
-        f"name {name} is a SystemVerilog reserved keyword!" )
+        f"name {name} is a SystemVerilog reserved keyword or not a legal identifier!" )
 
   #-----------------------------------------------------------------------
   # visit_CombUpblk
